@@ -513,6 +513,56 @@ class Fst:
         return t
 
     @staticmethod
+    def resub(alphabet, pattern, template, flags=0):
+        """re.sub(pattern, template, x) for a constant pattern whose matches are 1 or 2 characters long (alternations of
+        single-character atoms, groups allowed) and a constant template.  What the pattern does on one or two characters is
+        asked of CPython's `re` itself (leftmost match, first alternative wins, unmatched groups expand to '')."""
+        import re as _re
+        lo, hi = sre_parse.parse(pattern, flags).getwidth()
+        if lo < 1 or hi > 2:
+            raise FstError(f're.sub pattern with matches of width {lo}..{hi}')
+        rx = _re.compile(pattern, flags)
+        missing = check_minterms(alphabet, [(pattern, flags)], [])
+        if missing:
+            raise FstError(f're.sub pattern distinguishes characters the alphabet does not: {missing[:5]!r}')
+
+        def decide(w):
+            m = rx.match(w)
+            if m is None or m.end() == 0:
+                return 0, None
+            return m.end(), m.expand(template)
+        t = Fst(alphabet)
+        s0 = t.new()
+        t.init = s0
+        t.finals[s0] = ['']
+        pending = {}
+        single = {}          # c -> output when c is decided on its own
+        for c in alphabet:
+            n1, o1 = decide(c)
+            single[c] = o1 if n1 == 1 else c
+            two = any(decide(c + d)[0] == 2 for d in alphabet)
+            if two:
+                pending[c] = t.new()
+        for c in alphabet:
+            if c in pending:
+                t.add(s0, c, '', pending[c])
+                t.finals[pending[c]] = [single[c]]
+            else:
+                t.add(s0, c, single[c], s0)
+        for c, pc in pending.items():
+            for d in alphabet:
+                n, o = decide(c + d)
+                if n == 2:
+                    t.add(pc, d, o, s0)
+                else:
+                    head = o if n == 1 else c
+                    if d in pending:
+                        t.add(pc, d, head, pending[d])
+                    else:
+                        t.add(pc, d, head + single[d], s0)
+        return t
+
+    @staticmethod
     def lstrip(alphabet, chars):
         t = Fst(alphabet)
         s0, s1 = t.new(), t.new()
